@@ -2072,6 +2072,25 @@ def _prune_selected_keys(keys_to_update, prefix):
     )
 
 
+def _lock_after_memmap(td):
+    """Registers the lock graph of a tensordict that has just been memory-mapped.
+
+    ``_memmap_`` flags every node of the tree as locked without registering its lock
+    parents (it cannot iterate over nodes that threads may still be populating), and
+    ``lock_()`` is a no-op on a node that is already flagged: a nested tensordict could
+    then be unlocked on its own. This propagates the lock from the root as ``lock_()`` does.
+    """
+    from tensordict._lazy import _CustomOpTensorDict
+    from tensordict._td import _SubTensorDict
+
+    if isinstance(td, (_SubTensorDict, _CustomOpTensorDict)):
+        # views do not hold a lock of their own: the lock belongs to the source
+        _lock_after_memmap(td._source)
+        return td
+    td._propagate_lock(None, is_compiling=is_compiling())
+    return td
+
+
 class TensorDictFuture:
     """A custom future class for TensorDict multithreaded operations.
 
@@ -2089,6 +2108,9 @@ class TensorDictFuture:
     def result(self):
         """Wait and returns the resulting tensordict."""
         concurrent.futures.wait(self.futures)
+        if getattr(self.resulting_td, "is_locked", False):
+            # memmap results are flagged as locked by ``_memmap_``
+            _lock_after_memmap(self.resulting_td)
         return self.resulting_td
 
 
